@@ -34,9 +34,9 @@ func init() {
 		Subs: []*run.Sub{
 			{Name: "options", N: func(t string) uint64 {
 				if t == "thorough" {
-					return 3_000_000
+					return 30_000_000
 				}
-				return 150_000
+				return 500_000
 			}, Run: c14Options,
 				Min: map[string]int64{"decodes": 100000, "with_palette_options": 50000, "with_color_at_options": 50000, "nonsensical_user_colors": 20000, "gradient_looking_user_colors": 5000,
 					"replacement_after_override": 5000, "paths": 100000, "flat": 50000, "suggested_palette_in_file": 30000, "non_rgba_color_models": 20000}},
